@@ -24,6 +24,8 @@ def gen_script(rng, sw, spec, idx, tier, prop):
     ops = []
     pre = []
     nsrc = 0
+    avoid_f_c01_1 = t == "hist" and (idx // len(FTYPES)) % 6 != 0  # avoid filter for known finding F-C01-1
+    avoid_model_rel = prop == "C10" and (idx // len(FTYPES)) % 4 != 0  # avoid filter for known finding F-C10-2
     special = ["none", "model_first", "model_only", "all_disabled_but_one", "after_move", "container_with_sources", "none", "none"][(idx // len(FTYPES)) % 8]
     n_mut = sw.randint(1, 7 if tier == "quick" else 12)
     cost = spec["cost"]
@@ -42,17 +44,17 @@ def gen_script(rng, sw, spec, idx, tier, prop):
         ops.append(["set_all", fitlib.gen_point(rng, spec, 0.3)])
     if want_errors:
         if special == "model_first":
-            ops.append(fitlib.gen_source(rng, spec, nsrc, force={"ref": "model", "kind": "simple", "axis": "y" if t == "xy" else None, "rel": (False if t == "hist" else rng.random() < 0.4)}))
+            ops.append(fitlib.gen_source(rng, spec, nsrc, force={"ref": "model", "kind": "simple", "axis": "y" if t == "xy" else None, "rel": (False if (t == "hist" or avoid_model_rel) else rng.random() < 0.4)}))
             nsrc += 1
         elif special == "model_only":
-            op = fitlib.gen_source(rng, spec, nsrc, force={"ref": "model", "kind": "simple", "rel": (rng.random() < 0.5 and t != "hist"), "axis": "y" if t == "xy" else None})
+            op = fitlib.gen_source(rng, spec, nsrc, force={"ref": "model", "kind": "simple", "rel": (rng.random() < 0.5 and t != "hist" and not avoid_model_rel), "axis": "y" if t == "xy" else None})
             op[1]["corr"] = 0.0
             ops.append(op)
             nsrc += 1
         if special != "model_only":
             # a base y source that keeps the total positive definite
             op = fitlib.gen_source(rng, spec, nsrc, force={"kind": "simple", "axis": "y" if t == "xy" else None, "ref": rng.choice(["data", "data", "model"])})
-            if t == "hist" and op[1]["ref"] == "model":
+            if (t == "hist" or avoid_model_rel) and op[1]["ref"] == "model":
                 op[1]["rel"] = False
             op[1]["corr"] = rng.choice([0.0, 0.0, 0.3])
             ops.append(op)
@@ -60,12 +62,11 @@ def gen_script(rng, sw, spec, idx, tier, prop):
     pool = ["source"] * (3 if want_errors and special != "model_only" else 0) + ["toggle"] * (2 if want_errors else 0) + ["constraint"] * 2 + ["par"] * 2 + ["gc", "collide"]
     if prop == "C10":
         pool += ["fixrel"] * 5 + ["constraint"] * 3
-    avoid_f_c01_1 = t == "hist" and (idx // len(FTYPES)) % 6 != 0  # avoid filter for known finding F-C01-1
     for _ in range(n_mut):
         k = rng.choice(pool)
         if k == "source" and nsrc < 6:
             op = fitlib.gen_source(rng, spec, nsrc)
-            if avoid_f_c01_1 and op[1]["ref"] == "model":
+            if (avoid_f_c01_1 or avoid_model_rel) and op[1]["ref"] == "model":
                 op[1]["rel"] = False
             ops.append(op)
             nsrc += 1
@@ -372,7 +373,16 @@ class CostMachine(Machine):
         fit = sim.fit
         spec = sim.spec
         which = ["ndf", "gof", "chi2p", "dict"][(pi + case["seed"]) % 4]
-        do_fit = case["knobs"].get("do_fit") and pi == 0
+        do_fit = case["knobs"].get("do_fit") and pi == 0 and len(ref.d) >= (ref.n_par - len(ref.fixed)) + 2
+        # C10 is stated relative to "the cost": the known deviation F-C01-1 of how HistFit refers model-relative sources is C01's
+        # business and is mirrored here so that only the ndf / GoF / probability formulas can fail this check
+        ref.hist_rel_unscaled = True
+        if ref.effective_cost_id().startswith("gauss_approximation") and ref.ftype != "unbinned":
+            Vs = ref.total_cov(p_eff) + np.diag(np.asarray(ref.d, dtype=float))
+            evs = np.linalg.eigvalsh(0.5 * (Vs + Vs.T))
+            if evs.min() <= 0 or evs.max() / evs.min() > 1e7:
+                res.bump("discard_saturated_variance_singular")
+                return
         quad_model = spec["type"] == "hist" and spec["bin_eval"] in ("simpson", "trapezoid", "rectangle")
         if p is not None:
             fit.set_all_parameter_values(list(p))
@@ -380,7 +390,11 @@ class CostMachine(Machine):
             # "before and after fitting": the point is wherever the minimizer ends; fixed parameters stay declared.
             if len(ref.fixed) >= ref.n_par:
                 return
-            fit.do_fit()
+            try:
+                fit.do_fit()
+            except Exception as e:  # a fit that fails is not C10's business (C06/C07): the case is discarded, never passed
+                res.bump("discard_do_fit_raised_" + type(e).__name__)
+                return
             p_eff = [float(v) for v in fit.parameter_values]
             if sim.domain_ok(p_eff):
                 res.bump("discard_after_fit_out_of_domain")
